@@ -84,7 +84,7 @@ def drive(tmp, seed, count, maxn, race=False, policy=None, scenarios=None, tag="
         if m:
             frames = re.findall(r"^\t(/\S+:\d+)", m.group(2), re.M)
             frames = [f for f in frames if "/src/runtime/" not in f and "/go/src/" not in f and "/src/internal/" not in f]
-            if frames and frames[0].startswith("/repo/internal/"):
+            if frames and frames[0].startswith(core.REPO + "/internal/"):
                 crash = f"{m.group(1)} at {frames[:3]} (the process died)"
     races = []
     if race and "WARNING: DATA RACE" in text:
@@ -94,7 +94,7 @@ def drive(tmp, seed, count, maxn, race=False, policy=None, scenarios=None, tag="
                 # recovers and returns "worker pool is closed"); the race detector reports every racy close. Not a crash.
                 continue
             frames = re.findall(r"grog/internal/[\w/]+\.\(?\*?[\w\[\].]+\)?\.?[\w.]*\(\)\n\s+(/\S+?/internal/\S+:\d+)", blk)
-            repo_frames = [f for f in re.findall(r"(/repo/internal/\S+:\d+)", blk)]
+            repo_frames = [f for f in re.findall(r"(" + re.escape(core.REPO) + r"/internal/\S+:\d+)", blk)]
             if repo_frames:
                 races.append(sorted(set(repo_frames))[:4])
     results = None
